@@ -48,6 +48,29 @@ class Gen:
             a = self.factor("(%s*%s)" % (rng.choice(self.prefixes2), u), e, prefix=False)
             b = self.factor("(%s*%s)" % (rng.choice(self.prefixes), u), e, prefix=False) if rng.random() < 0.8 else self.factor(u, e, prefix=False)
             return (a, b) if rng.random() < 0.5 else (b, a)
+        if rng.random() < 0.06:
+            # the same two named units on both sides with the exponents distributed differently (m**2/ft -> ft**2/m)
+            d = rng.choice(sorted((d for d, us in self.bydim.items() if len(us) > 1), key=str))
+            u, v = rng.sample(self.bydim[d], 2)
+            e1, e2 = rng.choice([(2, -1), (1, 1), (2, 1), (3, -2), (1, -2), (-1, -1)])
+            a = "(%s * %s)" % (self.factor(u, e1), self.factor(v, e2))
+            b = "(%s * %s)" % (self.factor(v, e1), self.factor(u, e2)) if rng.random() < 0.7 else "(%s * %s)" % (self.factor(u, e2), self.factor(v, e1))
+            if eval(a, self.ns).dimension is eval(b, self.ns).dimension:
+                return a, b
+        if self.prefixes2 and rng.random() < 0.05:
+            # data units: Byte is 2**3 Bit, so a decimal prefix on it (also a very small one) makes a prefix of mixed bases
+            allp = [p for p in pools(self.ns)[1] if self.ns[p].base in (2, 10)]
+            def data():
+                t = "(%s*%s)" % (rng.choice(allp), rng.choice(["Bit", "Byte"])) if rng.random() < 0.8 else rng.choice(["Bit", "Byte"])
+                return t
+            a, b = data(), data()
+            if rng.random() < 0.4:
+                t1 = self.factor("Second", 1)
+                a, b = "(%s / %s)" % (a, t1), "(%s / %s)" % (b, self.factor("Second", 1))
+            elif rng.random() < 0.3:
+                a, b = "(Second / %s)" % a, "(Second / %s)" % b
+            if "Bit" in self.ns and "Byte" in self.ns:
+                return a, b
         k = rng.choice([1, 1, 2, 2, 3])
         src, dst = [], []
         for _ in range(k):
